@@ -597,7 +597,12 @@ func account(st *cv.Stats, c *wcase, seen map[string]bool) {
 		return
 	}
 	cc := confClass(&c.Conf)
-	st.Hit("conf:" + cc)
+	for i, part := range strings.Split(cc, "|") {
+		st.Hit([]string{"naming:", "metadata:", "", "", "", ""}[i] + part)
+	}
+	for _, l := range layoutOfAddr[c] {
+		st.Hit("layout:" + l)
+	}
 	if c.Listener {
 		st.Hit("listener:on")
 	} else {
